@@ -76,6 +76,9 @@ func c04Key(file string) (string, error) {
 func c04Run(c string) string {
 	f := strings.SplitN(strings.Fields(c)[0], "|", 2)
 	kill, ops := f[0], f[1]
+	if kill == "s" {
+		return c04SnapRun(ops)
+	}
 	file := filepath.Join(storeDir(), fmt.Sprintf("c04-%d.sqlite", atomic.AddInt64(&c04Seq, 1)))
 	rm := func() {
 		for _, suf := range []string{"", "-wal", "-shm"} {
@@ -228,6 +231,15 @@ func c04Gen(r *rand.Rand, n int, tier string) []string {
 			} else {
 				ops = append(ops, "np:"+hxs(target)+":"+strings.Join(pts, "+"))
 			}
+		}
+		if i%8 == 7 {
+			// crash images at every row change (first-time initialisation included) instead of one sampled kill time;
+			// a shorter history keeps the number of images down
+			if len(ops) > depth+6 {
+				ops = ops[:depth+6]
+			}
+			out = append(out, "s|"+strings.Join(ops, ";"))
+			continue
 		}
 		kill := fmt.Sprintf("d%d", r.Intn(1+len(ops)*600)) // a batch takes roughly a millisecond
 		if r.Intn(6) == 0 {
